@@ -637,6 +637,32 @@ class Planner:
                 for ci in range(1, n_clients):
                     if wr.random() < 0.7:
                         clients[ci].insert(0, copy.deepcopy(first))
+        if n_clients >= 2 and 'reenter' in kinds and wr.random() < 0.5:
+            # mutual nesting: some client's call on module A starts a nested call on module B -- another client then
+            # STARTS with a call on B that nests a call on A (the two orders in which two modules can be entered)
+            found = None
+            for ci, ops in enumerate(clients):
+                for op in ops:
+                    for act in (op.get('script') or {}).values() if op['op'] == 'parse' else ():
+                        if isinstance(act, dict) and act['nest']['op'] == 'parse' and act['nest']['mod'] != op['mod']:
+                            found = (ci, op['mod'], act['nest']['mod'])
+                            break
+                    if found:
+                        break
+                if found:
+                    break
+            if found:
+                ci, a, b = found
+                cj = wr.choice([j for j in range(n_clients) if j != ci])
+                if getattr(self.infos.get(b), 'owner', cj) == cj and getattr(self.infos.get(a), 'owner', cj) == cj:
+                    inv = self.gen_parse(b, [k for k in kinds if k != 'reenter'])
+                    fired = self.ref(inv)['fired']
+                    if fired and self.ref(inv)['out'].get('err') != 'nontermination':
+                        tag, p, _ = wr.choice(fired)
+                        sc = dict(inv.get('script') or {})
+                        sc.setdefault('%s@%s' % (tag, p), {'nest': self.gen_parse(a, [k for k in kinds if k != 'reenter'], depth=1)})
+                        inv['script'] = sc
+                        clients[cj].insert(0, inv)
         probes = []
         for mid in sorted(self.infos):
             m = self.infos[mid]
